@@ -23,7 +23,7 @@ LEVEL = "exploration"
 RULE = ("scenario = 1..3 producers x 1..10 items each (typed messages of the four envelope classes + legacy class, plain dicts, "
         "pre-serialised strings, unserialisable objects) x child read behaviour (eager/slow/stall windows) x pipe capacity x close instant; "
         "non-trivial = a send blocked on back-pressure, or an unserialisable item preceded a serialisable one, or >= 2 producers interleaved")
-PROBES = ["typed_object_changed_in_place_and_sent_again", "child_closed_stdout_keeps_reading", "unencodable_string_item", "value_rejected_by_fast_json_backend", "frame_over_64k", "inbound_batch_rejected_during_writes", "stdin_send_blocked", "unserialisable_before_valid", "producers_interleaved", "payload_with_line_breaks", "closed_while_backlog"]
+PROBES = ["queued_through_send_json", "typed_object_changed_in_place_and_sent_again", "child_closed_stdout_keeps_reading", "unencodable_string_item", "value_rejected_by_fast_json_backend", "frame_over_64k", "inbound_batch_rejected_during_writes", "stdin_send_blocked", "unserialisable_before_valid", "producers_interleaved", "payload_with_line_breaks", "closed_while_backlog"]
 TIERS = {"quick": {"runs": 15000, "wall": 45.0}, "thorough": {"runs": 800000, "wall": 560.0}}
 ASSUMPTIONS = [
     "order 'sent' = order in which the (real, FIFO) write stream accepted the items",
@@ -80,6 +80,9 @@ def generate(rng: random.Random, tier: str) -> dict:
             it = _gen_item(rng, k)
             it["producer"] = p
             it["delay"] = rng.choice([0, 0, 0, 1, 3, 20])
+            if it["shape"].startswith("typed_") or it["shape"] in ("dict", "legacy"):
+                if rng.random() < 0.12:
+                    it["via"] = "send_json"   # queued through StdioClient.send_json() instead of the write stream
             items.append(it)
     rng.shuffle(items)
     # a typed message object that was already sent is changed in place (not by assigning a field) and sent again by the same producer
@@ -103,12 +106,19 @@ def generate(rng: random.Random, tier: str) -> dict:
         read_every = 1
     version = rng.choice([None, None, "2025-06-18", "2025-03-26"])
     inbound = [{"t": rng.randrange(0, 300), "hops": rng.choice([0, 1, 2, 3])} for _ in range(rng.choice([0, 0, 1, 2, 4]))] if version == "2025-06-18" else []
-    return {"v": 1, "child_closes_stdout_at": closes_stdout if fault is None else None, "version": version, "inbound_batches": inbound, "items": items, "read_mode": read_mode, "read_every": read_every, "read_bytes": read_bytes,
+    # the server is chatty and this client only writes: more unread inbound messages than the read stream buffers
+    inbound_flood = rng.choice([120, 101, 250]) if rng.random() < 0.1 else 0
+    return {"v": 1, "inbound_flood": inbound_flood, "child_closes_stdout_at": closes_stdout if fault is None else None, "version": version, "inbound_batches": inbound, "items": items, "read_mode": read_mode, "read_every": read_every, "read_bytes": read_bytes,
             "capacity": rng.choice([1, 16, 100, 1000, 65536]), "stall": [rng.randrange(0, 50), rng.randrange(10, 400)],
             "close_at": rng.choice([None, None, 0, 5, 50]), "fault": fault}
 
 
 def simplify(scn):
+    if scn.get("inbound_flood"):
+        c = copy.deepcopy(scn); c["inbound_flood"] = 0; yield c
+    for i, it in enumerate(scn["items"]):
+        if it.get("via"):
+            c = copy.deepcopy(scn); del c["items"][i]["via"]; yield c
     for i, it in enumerate(scn["items"]):
         if it["shape"] == "resend":
             c = copy.deepcopy(scn); c["items"].pop(i); yield c
@@ -247,6 +257,11 @@ def execute(scn: dict) -> dict:
                 _read, write = client.get_streams()
                 ws = RecSend(sim, write)
                 st["ws"] = ws
+                if scn.get("inbound_flood"):
+                    child.write_stdout([b"".join(b'{"jsonrpc":"2.0","method":"notifications/message","params":{"data":"chatter-%d"}}\n' % q
+                                                 for q in range(scn["inbound_flood"]))])
+                    sim.fault("read_stream_full_of_unread_inbound_messages")
+                    await anyio.sleep(ticks(2))
                 if scn["read_mode"] == "stall":
                     sim.at(sim.now() + ticks(scn["stall"][0]), child.pause_reading, True)
                     sim.at(sim.now() + ticks(scn["stall"][0] + scn["stall"][1]), child.pause_reading, False)
@@ -286,7 +301,13 @@ def execute(scn: dict) -> dict:
                         if it["shape"] == "resend":
                             sim.probe("typed_object_changed_in_place_and_sent_again")
                         try:
-                            await ws.send(obj)
+                            if it.get("via") == "send_json":
+                                from sim.streams import task_name as _tn
+                                await client.send_json(obj)
+                                ws.items.append((sim.rec("client", "write", None), sim.now(), _tn(), obj))
+                                sim.probe("queued_through_send_json")
+                            else:
+                                await ws.send(obj)
                         except (anyio.ClosedResourceError, anyio.BrokenResourceError):
                             sim.rec(f"producer-{p}", "send-refused", None)
                             return
